@@ -46,6 +46,8 @@ class T:
     depth = 0
     tops: list = []
     on = False
+    own_defs: dict = {}
+    problems: list = []
 
 
 def install_tracer():
@@ -57,6 +59,30 @@ def install_tracer():
         def traced(tape, stack, cache):
             T.events.append((T.script, T.depth, tape.pointer - 1, name))
             fn(tape, stack, cache)
+        if name == 'OP_DEF':
+            def traced(tape, stack, cache):        # noqa: F811
+                T.events.append((T.script, T.depth, tape.pointer - 1, name))
+                p, d = tape.pointer, tape.data
+                if p + 3 <= len(d):
+                    size = int.from_bytes(d[p + 1:p + 3], 'big')
+                    if p + 3 + size <= len(d):
+                        # the definition this tape itself just made
+                        T.own_defs[(id(tape), d[p:p + 1])] = (
+                            tape, d[p + 3:p + 3 + size])
+                fn(tape, stack, cache)
+        elif name == 'OP_CALL':
+            def traced(tape, stack, cache):        # noqa: F811
+                T.events.append((T.script, T.depth, tape.pointer - 1, name))
+                h = tape.data[tape.pointer:tape.pointer + 1]
+                own = T.own_defs.get((id(tape), h))
+                callee = tape.definitions.get(h)
+                if own is not None and own[0] is tape and callee is not None \
+                        and callee.data != own[1]:
+                    T.problems.append(
+                        f'script #{T.script}: CALL {h.hex()} runs a body '
+                        f'({callee.data.hex()[:40]}) other than the one the '
+                        f'same tape defined ({own[1].hex()[:40]})')
+                fn(tape, stack, cache)
         traced.__wrapped__ = fn
         return traced
     for table in (functions.opcodes, functions.nopcodes):
@@ -91,6 +117,8 @@ def reset_trace():
     T.script = -1
     T.depth = 0
     T.tops = []
+    T.own_defs = {}
+    T.problems = []
 
 
 def real(case):
@@ -287,6 +315,7 @@ def judge_traced(ctx, case, verdict, exc):
     v2, e2 = real(case)
     ev_real = per_script(T.events, n)
     tops_real = list(T.tops)
+    def_problems = list(T.problems)
     reset_trace()
     want = oracle(case)
     ev_or = per_script(T.events, n)
@@ -294,6 +323,12 @@ def judge_traced(ctx, case, verdict, exc):
     ctx.evaluated()
     ctx.tab('tag', case['tag'].split(':')[0])
     ctx.tab('verdict', f'real={verdict} oracle={want}')
+    if def_problems:
+        ctx.violation('call-runs-foreign-definition', 'a function a script '
+                      'defined itself was not the one its CALL executed '
+                      '(instructions of the script skipped): '
+                      + def_problems[0], case)
+        return
     if exc is not None:
         ctx.violation('auth-raises', 'run_auth_scripts raised '
                       f'{type(exc).__name__} instead of returning False',
